@@ -304,13 +304,13 @@ PROPS['C14'] = dict(
     trusted_base=TRUSTED_COMMON + ["identifiers, signature material and revocation data are copied field by field by the Rust code and are outside the model: compared on real objects by the harness oracles only"],
 )
 PROPS['C15'] = dict(
-    lean_targets=['AnonModel.Props.C15', 'AnonModel.Props.C15Req'],
-    required_theorems=['C15_req_de_ser', 'C15_req_ser_de', 'C15_req_ser_de_any', 'C15_req_empty_interval_kept', 'C15_req_restrictions_kept', 'C15_req_missing_vs_null', 'C15_req_ver',
+    lean_targets=['AnonModel.Props.C15', 'AnonModel.Props.C15Req', 'AnonModel.Props.C15Bn'],
+    required_theorems=['C15_bn_binary_hop', 'C15_bn_binary_hop_partial', 'C15_bn_binary_full_claim_refuted', 'C15_req_de_ser', 'C15_req_ser_de', 'C15_req_ser_de_any', 'C15_req_empty_interval_kept', 'C15_req_restrictions_kept', 'C15_req_missing_vs_null', 'C15_req_ver',
                        'C15_nonce_ser_de', 'C15_nonce_string_kept', 'C15_nonce_rejects', 'C15_revlist_de_ser', 'C15_revlist_ser_de', 'C15_ver_roundtrip',
                        'C15_missing_ver_is_v1', 'C15_attrval_de_ser', 'C15_attrval_ser_de', 'C15_attrval_rejects'],
     families=[dict(name='c15')], default_dir='exact', spec_is_model=['c15'],
     fam_theorem={'c15': 'C15_nonce_* / C15_revlist_* / C15_ver_* / C15_attrval_* / C15_req_* (hand-written codecs = model; reqDe / reqSer is the whole presentation-request codec)'},
-    rule="the whole PresentationRequest codec (op codec_req: de then ser, as documents) on 1,200 (quick) / 20,000 (thorough) documents assembled from member pools holding every boundary form (intervals {} / one bound / both / null / array form / wrong types / out of u64; restrictions in every operator and degenerate form incl. legacy lists with null tags; names / p_type / p_value / nonce / ver forms; missing, null and unknown members; array-form structs), about half of them valid; typed-equality hops (PresentationRequest, W3CCredential, W3CPresentation: PartialEq; status lists, offers, requests, metadata, registry definitions, revocation states: printed form) and status lists with timestamps absent / 0 / 1 / u64::MAX. Hand-written codecs compared exactly with the model on ~2000 JSON inputs each way (Nonce from strings with leading zeros / numbers / byte arrays incl. truncation and trailing junk / wrong types; revocation list bits incl. other numbers, floats, booleans; request version present / absent / unknown / mistyped; untagged attribute value over the i32 boundaries, floats, big integers, null, arrays). Hop stream (oracle, all 17 object types): every complete flow (legacy / W3C x plain / revocable) is run twice from the same PRNG state, once directly and once with a serialise->deserialise hop at every hand-over point (schema, definition and its private and correctness parts, offer, request and metadata, credential before and after processing, registry definition and private part, status list, revocation state, nonce, presentation request, presentation): outcomes must agree; ser(de(ser x)) = ser x as canonical documents (JSON values, msgpack envelopes decoded); every cast object and 24 random honest presentations hopped and re-verified",
+    rule="revealed encodings of five value pairs (negative, zero, boundaries, byte-boundary magnitudes) read from a W3C presentation before and after a hop against the model of the binary big-number codec (op bn_hop: the magnitude survives, the sign does not — F22; legacy control verifies); the whole PresentationRequest codec (op codec_req: de then ser, as documents) on 1,200 (quick) / 20,000 (thorough) documents assembled from member pools holding every boundary form (intervals {} / one bound / both / null / array form / wrong types / out of u64; restrictions in every operator and degenerate form incl. legacy lists with null tags; names / p_type / p_value / nonce / ver forms; missing, null and unknown members; array-form structs), about half of them valid; typed-equality hops (PresentationRequest, W3CCredential, W3CPresentation: PartialEq; status lists, offers, requests, metadata, registry definitions, revocation states: printed form) and status lists with timestamps absent / 0 / 1 / u64::MAX. Hand-written codecs compared exactly with the model on ~2000 JSON inputs each way (Nonce from strings with leading zeros / numbers / byte arrays incl. truncation and trailing junk / wrong types; revocation list bits incl. other numbers, floats, booleans; request version present / absent / unknown / mistyped; untagged attribute value over the i32 boundaries, floats, big integers, null, arrays). Hop stream (oracle, all 17 object types): every complete flow (legacy / W3C x plain / revocable) is run twice from the same PRNG state, once directly and once with a serialise->deserialise hop at every hand-over point (schema, definition and its private and correctness parts, offer, request and metadata, credential before and after processing, registry definition and private part, status list, revocation state, nonce, presentation request, presentation): outcomes must agree; ser(de(ser x)) = ser x as canonical documents (JSON values, msgpack envelopes decoded); every cast object and 24 random honest presentations hopped and re-verified",
     trusted_base=TRUSTED_COMMON + ["serde derive, serde_json, rmp-serde, base64 and the CL crate's (de)serialisers are external code outside the model (the property is partial in that sense): exercised by the hop stream only"],
     not_exhibited_by_model=["derive-generated and CL-crate codecs, the msgpack/base64 envelope: hop stream (test) only"],
 )
